@@ -67,6 +67,21 @@ def g_env_pairs(freq=300, gate=1):
     u.Out.ar(0, u.SinOsc.ar(freq) * e)
 
 
+SHARED_RATES = [None, None, 0.2]
+
+
+def g_rates_a(a: 'ir' = 1, b: 'tr' = 0, c=0.5):
+    # annotated rates, and a rates list that the user also gives to the
+    # build of another function (g_rates_b)
+    u = _u()
+    u.Out.ar(0, u.SinOsc.ar(200 * a) * u.Decay.kr(b) * c)
+
+
+def g_rates_b(x=1, y=0, z=0.5):
+    u = _u()
+    u.Out.ar(0, u.SinOsc.ar(200 * x) * y * z)
+
+
 def g_shared(freq=200):
     u = _u()
     osc = u.SinOsc.ar(freq)
@@ -252,6 +267,8 @@ CORPUS = {
     'factory_a': (g_factory_a, {}),
     'factory_b': (g_factory_b, {}),
     'factory_c': (g_factory_c, {}),
+    'rates_a': (g_rates_a, {'rates': SHARED_RATES}),
+    'rates_b': (g_rates_b, {'rates': SHARED_RATES}),
     'env_shared': (g_env_shared, {}),
     'env_pairs': (g_env_pairs, {}),
 }
